@@ -49,7 +49,7 @@ META = {
         "the VM only makes valid S4U calls (guards on unlock / cond wait / binary-semaphore release / join / create)",
         "observations are taken only under the object they describe, so they are a function of the interleaving",
     ],
-    "ready": False,
+    "ready": True,
 }
 
 
